@@ -447,8 +447,8 @@ impl<'a> Gen<'a> {
             },
             16..=18 => {
                 // map.sort(): on keys of one kind (numbers / strings, null first) ValueKey::partial_cmp
-                // is a total preorder; maps with keys of mixed kinds are sorted too — the model follows
-                // the merge sort, the (D) oracle attributes unordered results to F-C14-5
+                // is a total preorder; maps with keys of mixed kinds are sorted too — the order is total
+                // since fix abae06d (F-C14-5)
                 Stmt::Do(op("sort", vec![t]))
             }
             19..=22 => {
